@@ -350,7 +350,8 @@ A_INTERN void a_list_set_(a_list const *head1, a_list const *tail1, a_list *head
 */
 A_INTERN void a_list_set_node(a_list const *ctx, a_list *rhs)
 {
-    a_list_add_(ctx->next, ctx->prev, rhs, rhs);
+    if (ctx->next != ctx) { a_list_add_(ctx->next, ctx->prev, rhs, rhs); }
+    else { rhs->prev = rhs->next = rhs; }
 }
 
 /*!
